@@ -21,7 +21,8 @@ RULE = (
     "set: every near-miss (version min-1/max+1, key -1/max+1 and gaps, type not offered by that API, "
     "EntityType.nested) plus Hypothesis-drawn arbitrary ints/strings for key, name, version: must raise "
     "UnknownAPIKey (bad key) or UnknownEntity (else) and nothing else. Non-trivial = near-miss or arbitrary "
-    "invalid input; distinct by argument tuple."
+    "invalid input; distinct by argument tuple. The exhaustive valid sweep and the near-misses are repeated in a child "
+    "interpreter started with -O (assert statements stripped - a common production setting): same expectations."
 )
 
 
@@ -190,6 +191,11 @@ def run(ctx: Ctx) -> Report:
             rep.add_failure(Failure(res[0], res[1], {"kind": "invalid", "fn": name, "args": _enc_args(args)}, len(res[1])))
     rep.extra["near_misses"] = len(nm)
     rep.samples.extend([{"fn": n, "args": repr(a), "expected": w} for n, a, w in nm[:: max(1, len(nm) // 6)][:6]])
+    # 3b. the same exhaustive sweep and near-misses in an interpreter that strips assert statements (python -O)
+    for sig, msg, case in optimized_child():
+        rep.add_failure(Failure(sig, msg, case, len(msg)))
+    rep.evaluations += len(disk) + len(nm)
+    rep.extra["python_O_child_cases"] = len(disk) + len(nm)
     # 4. arbitrary inputs
     n_arb = 2000 if ctx.quick else 100000
     names = sorted(pins()["apis"])
@@ -250,8 +256,51 @@ def run(ctx: Ctx) -> Report:
     return rep
 
 
+def child_cases() -> list:
+    """valid sweep + near misses -> [(signature, message, replay case)] (run in the -O child and by its replay)"""
+    import kio.index as I
+
+    out = []
+    for api, v, t, modname in D.walk_version_modules():
+        for sig, msg in check_valid(api, v, t, modname):
+            out.append((f"python-O:{sig}", "[python -O] " + msg, {"kind": "python-O"}))
+    for name, args, want in near_misses():
+        res = expect_unknown(getattr(I, name), args, want)
+        if res:
+            out.append((f"python-O:{res[0]}", "[python -O] " + res[1], {"kind": "python-O"}))
+    return out
+
+
+def optimized_child() -> list:
+    import json
+    import os
+    import subprocess
+    import sys
+    import tempfile
+
+    from ..engine import HarnessError
+
+    with tempfile.TemporaryDirectory(prefix="kv-c09-") as d:
+        out = os.path.join(d, "out.json")
+        code = ("import json,sys\nfrom kv.props import c09\nassert not __debug__ or sys.exit(3)\n"
+                "json.dump(c09.child_cases(), open(sys.argv[1], 'w'))")
+        r = subprocess.run([sys.executable, "-O", "-c", code, out], capture_output=True, text=True, timeout=900,
+                           cwd=os.path.dirname(os.path.dirname(os.path.dirname(os.path.abspath(__file__)))))
+        if r.returncode != 0 or not os.path.exists(out):
+            raise HarnessError(f"python -O child failed (exit {r.returncode}): {r.stderr[-800:]}")
+        seen, res = set(), []
+        for sig, msg, case in json.load(open(out)):
+            if sig not in seen or len(res) < 40:
+                seen.add(sig)
+                res.append((sig, msg, case))
+        return res
+
+
 def replay(case):
     import kio.index as I
+
+    if case.get("kind") == "python-O":
+        return [(s, m) for s, m, _ in optimized_child()]
 
     if case.get("kind") == "valid":
         return check_valid(case["api"], case["version"], case["type"], case["module"])
